@@ -500,3 +500,389 @@ def writer_scope_table(prog, sl):
         elif scope is not None:
             table.setdefault(scope, None)
     return f, table, rows
+
+
+# =====================================================================================================================
+# Deepening round: obligations on what is *carried* (reader composition, failure propagation, order of the pure
+# `types` callback, per-element coverage of guarded loops).  Everything below is stated on MIR facts / value normal
+# forms; shapes that are not understood are reported by the callers as UNPROVEN.
+# =====================================================================================================================
+from .lib.value import _err_like, walk as _walk   # noqa: E402
+
+_MAP_LIKE = ('std::result::Result::<T, E>::map', 'std::option::Option::<T>::map')
+_AND_THEN = ('std::result::Result::<T, E>::and_then', 'std::option::Option::<T>::and_then')
+_TRANSPOSE = ('std::result::Result::<std::option::Option<T>, E>::transpose',
+              'std::option::Option::<std::result::Result<T, E>>::transpose')
+
+
+def _wrap(v, n):
+    for _ in range(n):
+        v = ('unwrap', v)
+    return v
+
+
+def unwrap_n(sl, v, n, fuel=24, keep=()):
+    """the value left after taking the success payload of v `n` times (Result / Option layers), in a normal form that
+    does not depend on `f(x?)` / `x.map(f)` / `x.and_then(f)` / `.transpose()` / early-return phis / private helpers:
+        U1(Ok(x)) = x                    U1(map(x, f)) = f(U1 x)          Un(and_then(x, f)) = Un(f(U1 x))
+        U2(transpose(x)) = U2(x)         Un(helper(..)) = Un(what the helper returns)
+    Layers that cannot be opened stay as ('unwrap', ..) wrappers."""
+    if n <= 0:
+        return v
+    if fuel <= 0 or not isinstance(v, tuple) or not v:
+        return _wrap(v, n)
+    if v[0] == 'unwrap':
+        return unwrap_n(sl, v[1], n + 1, fuel - 1, keep)
+    v = sl._ok_core(v)
+    if v[0] == 'unwrap':
+        return unwrap_n(sl, v[1], n + 1, fuel - 1, keep)
+    if v[0] == 'agg' and v[2] in ('Ok', 'Some') and v[1] in ('std::result::Result', 'std::option::Option') and len(v[3]) == 1:
+        return unwrap_n(sl, v[3][0][1], n - 1, fuel - 1, keep)
+    if v[0] == 'phi':
+        good = []
+        for x in v[1]:
+            if _err_like(x):
+                continue
+            u = unwrap_n(sl, x, n, fuel - 1, keep)
+            # an alternative that bottoms out in a literal failure (`Ok(None)` unwrapped twice) has no payload
+            y = u
+            while y[0] == 'unwrap':
+                y = y[1]
+            if u[0] == 'unwrap' and _err_like(y):
+                continue
+            good.append(u)
+        if len(good) == 1:
+            return good[0]
+        if good:
+            return ('phi', tuple(good))
+        return _wrap(v, n)
+    if v[0] == 'call':
+        name, args = v[1], v[2]
+        if name in _TRANSPOSE and n >= 2 and len(args) == 1:
+            return unwrap_n(sl, args[0], n, fuel - 1, keep)
+        if len(args) == 2 and isinstance(args[1], tuple) and args[1] and args[1][0] in ('closure', 'fnitem'):
+            if name in _AND_THEN:
+                r = sl.apply_closure(args[1], (unwrap_n(sl, args[0], 1, fuel - 1, keep),))
+                if r is not None:
+                    return unwrap_n(sl, r, n, fuel - 1, keep)
+            elif name in _MAP_LIKE:
+                r = sl.apply_closure(args[1], (unwrap_n(sl, args[0], 1, fuel - 1, keep),))
+                if r is not None:
+                    return unwrap_n(sl, r, n - 1, fuel - 1, keep)
+        if name in sl.prog.fns and name not in keep:
+            iv = sl.inline_call(v)
+            if iv is not None and iv != v:
+                return unwrap_n(sl, iv, n, fuel - 1, keep)
+    return _wrap(v, n)
+
+
+def deep_fields(sl, v, fuel=8, keep=()):
+    """v with the `.field` projections of values that became aggregates after substitution resolved"""
+    if not isinstance(v, tuple) or not v or fuel <= 0:
+        return v
+    if v[0] in ('const', 'param', 'fnitem', 'constitem', 'unknown', 'closure_env', 'upvar'):
+        return v
+    out = tuple(deep_fields(sl, x, fuel - 1, keep) if isinstance(x, tuple) else x for x in v)
+    if out[0] == 'field':
+        b = out[1]
+        n = 0
+        while b[0] == 'unwrap':
+            b, n = b[1], n + 1
+        if n:
+            ub = unwrap_n(sl, b, n, keep=keep)
+            if ub[0] == 'agg':
+                return sl._field(ub, out[2])
+        return sl._field(out[1], out[2])
+    return out
+
+
+# ---- failure propagation ---------------------------------------------------------------------------------------------
+def _handed_to(fn, sl, call, names):
+    """the call in fn to one of `names` that receives the result of `call` as its first argument"""
+    site = (fn.path, call.bb)
+    for h in fn.calls:
+        if h.indirect or not h.args or not ({h.name, h.res, h.decl} & set(names)):
+            continue
+        av = strip(sl.operand(fn, h.args[0]))
+        if av[0] == 'call' and len(av) == 4 and av[3] == site:
+            return h
+    return None
+
+
+def _match_propagates(fn, call):
+    """`match call(..) { Ok(x) => .., Err(e) => return Err(f(e)) }` / `if let Err(e) = call(..) { return Err(..) }`: the
+    result is only looked at through one match (the first discriminant read, which dominates every other use) none of
+    whose non-Ok arms can reach a success site.  (lib.discard.ok_on_success gives up on the extra discriminant reads
+    that drop elaboration adds after the payload was moved out; they come after the decision and cannot undo it.)"""
+    from .lib.discard import _non_ok_arms_fail
+    from .lib.effects import success_sites
+    dest = call.dest
+    if not dest or len(dest) != 1 or dest[0] == 0:
+        return False
+    sites = {s.bb for s in success_sites(fn)}
+    reads = []
+    for bi, kind, idx, how, pl in fn.uses_of(dest[0]):
+        if kind == 'drop':
+            continue
+        if kind != 'stmt':
+            return False
+        st = fn.blocks[bi]['s'][idx]
+        if how == 'discr':
+            reads.append((bi, st[1], st[2]))
+        elif not pl[1:]:
+            return False      # the whole value goes somewhere else
+    roots = [r for r in reads if all(fn.dominates(r[0], o[0]) for o in reads)]
+    if len(roots) < 1:
+        return False
+    bi, target, rv = roots[0]
+    return len(target) == 1 and _non_ok_arms_fail(fn, bi, target, rv, sites)
+
+
+def propagates(prog, sl, fn, call, tolerant=(), removal=False, _d=0):
+    """does fn reaching a success site imply that `call` (returning a Result) succeeded?  (`?`, returned, unwrap, an
+    Ok-preserving combinator followed by one of those, a match whose failure arms cannot reach success.)  For a removal
+    the not-found-tolerant helper is accepted in between: the post-condition "path absent" holds either way."""
+    from .lib.discard import ok_on_success
+    if not (call.dty or '').startswith('std::result::Result<'):
+        return True
+    if ok_on_success(prog, fn, call) or _match_propagates(fn, call):
+        return True
+    if removal and tolerant and _d < 3:
+        h = _handed_to(fn, sl, call, tolerant)
+        if h is not None:
+            return propagates(prog, sl, fn, h, tolerant, removal, _d + 1)
+    return False
+
+
+def swallowed_levels(prog, sl, e, tolerant=(), dispatched=()):
+    """[(Fn, Call)] levels of the call chain of effect e (the workspace calls leading to it and the std call itself) whose
+    failure can end in a success of the function containing them.  `dispatched`: functions whose failure *kinds* the
+    caller is meant to dispatch on (the layer reader: "unparsable metadata" is a row of the dispatch table, not a
+    failure); for them it is enough that the error is matched on, not dropped."""
+    from .lib.effects import REMOVING
+    from .lib.discard import result_fates, verdict
+    removal = e.kind in REMOVING or e.kind == 'CHMOD'
+    out = []
+    levels = [(l.call if isinstance(l, Link) else l) for l in (e.chain or ())]
+    if e.call is not None:
+        levels.append(e.call.call if isinstance(e.call, Link) else e.call)
+    for c in levels:
+        if c is None:
+            continue
+        if c.name in dispatched and verdict(result_fates(prog, c.fn, c)) == 'ok':
+            continue
+        if not propagates(prog, sl, c.fn, c, tolerant, removal):
+            out.append((c.fn, c))
+    return out
+
+
+# ---- every element of a guarded loop -----------------------------------------------------------------------------------
+def _same_collection(a, b):
+    from .lib.value import canon
+    def core(v):
+        v = strip(v)
+        for _ in range(6):
+            if v[0] == 'call' and len(v[2]) == 1 and (v[1] == 'std::iter::IntoIterator::into_iter' or v[1].endswith(('::iter', '::iter_mut', '::deref', '::as_ref', '::borrow'))):
+                v = strip(v[2][0])
+            else:
+                break
+        return canon(v)
+    return core(a) == core(b)
+
+
+def runs_for_every_element(E, fn, call):
+    """(ok, why): when fn succeeds, `call` (inside a loop of fn) has been executed for every element of the loop's
+    collection.  Needed: the call's block dominates every latch of its loop (no `continue` / conditional skips it); the
+    loop is left towards a success site only by exhaustion (no `break`); every condition on reaching the loop either
+    cannot fail without fn failing (its other edge reaches no success site) or is the emptiness test of the loop's own
+    collection (nothing to do for an empty collection)."""
+    sl = E.slicer
+    loops = [L for L in E.loops(fn) if call.bb in L.body and call.bb != L.header]
+    if not loops:
+        return False, 'not inside a loop'
+    L = min(loops, key=lambda l: len(l.body))
+    if len(loops) > 1:
+        return False, 'nested loops are not understood'
+    if not all(fn.dominates(call.bb, lt) or call.bb == lt for lt in L.latches):
+        return False, 'some iterations skip the call'
+    sites = {s.bb for s in E.sites(fn)}
+    if getattr(L, 'exhaust', None) is None:
+        return False, 'the exhaustion edge of the loop was not found'
+    for b in L.body:
+        for s in fn.succs(b):
+            if s in L.body or (b, s) == L.exhaust:
+                continue
+            if fn.reachable(s) & sites or s in sites:
+                return False, 'the loop can be left early towards a success site'
+    if sites & L.body:
+        return False, 'a success site lies inside the loop'
+    for cd in conditions(fn, L.header, sl):
+        others = [s for s in fn.succs(cd.sw_bb) if s != cd.target]
+        if not any((fn.reachable(s) & sites) or s in sites for s in others):
+            continue      # failing this test cannot end in success (`?`, `return Err(..)`)
+        if cd.kind == 'bool' and cd.outcome is False and cd.value[0] == 'call' and cd.value[1].endswith('::is_empty') \
+                and len(cd.value[2]) == 1 and L.collection is not None and _same_collection(cd.value[2][0], L.collection):
+            continue      # `if !xs.is_empty() { for x in xs { .. } }`
+        return False, 'the loop is skipped under %r' % (cd,)
+    return True, ''
+
+
+def optional_conditions(E, fn, bb):
+    """conditions on reaching bb that are real choices: taking another edge of the test can still end in a success of
+    fn (the `Continue` edge of `?`, `if bad { return Err(..) }`, ... are not choices)"""
+    sites = {s.bb for s in E.sites(fn)}
+    out = []
+    for cd in conditions(fn, bb, E.slicer):
+        others = [s for s in fn.succs(cd.sw_bb) if s != cd.target]
+        if any((fn.reachable(s) & sites) or s in sites for s in others):
+            out.append(cd)
+    return out
+
+
+def peel_some(v):
+    """`unwrap(Some(x))` / `unwrap(Ok(x))` / `unwrap(Some(x).filter(p))` -> x   (the payload, when there is one, is x)"""
+    for _ in range(8):
+        if v[0] == 'unwrap' and v[1][0] == 'agg' and v[1][2] in ('Some', 'Ok') and len(v[1][3]) == 1:
+            v = v[1][3][0][1]
+        elif v[0] == 'unwrap' and v[1][0] == 'call' and v[1][1] in ('std::option::Option::<T>::filter', 'std::option::Option::<T>::ok_or',
+                                                                    'std::option::Option::<T>::ok_or_else', 'std::result::Result::<T, E>::map_err') and v[1][2]:
+            v = ('unwrap', v[1][2][0])
+        else:
+            break
+    return v
+
+
+def reads_given_file(E, name):
+    """is `name` a std read of its path argument, or a workspace function that reads the file it is given and mutates
+    nothing (`read_toml_file(path)`)"""
+    from .lib.effects import VOCAB, MUTATING
+    if name in VOCAB:
+        return VOCAB[name][0] == 'READ'
+    g = E.prog.fns.get(name)
+    if g is None:
+        return False
+    effs = E.expand(g, 'may')
+    reads = [e for e in effs if e.kind == 'READ' and e.path is not None and any(x[0] == 'param' and x[1] == g.path for x in _walk(e.path))]
+    return bool(reads) and not any(e.kind in MUTATING for e in effs)
+
+
+# ---- by-value builders -------------------------------------------------------------------------------------------------
+def self_mutations(fn):
+    """every way a method changes its by-value `self` (local 1) on the normal paths: [(projection, 'assign', bb, rvalue) |
+    (projection, 'call', bb, Call)] — a field assignment, or a call receiving `&mut self.<field>` as its receiver.
+    None when `self` (or a `&mut` of it) goes anywhere else (the method's effect on the value is then not understood)."""
+    reach = fn.reachable(0)
+    muts = []
+    for d in fn.partial_defs(1):
+        if d[1] in reach:
+            muts.append((tuple(d[4][1:]), 'assign', d[1], d[3]))
+    for bi, kind, idx, mode, pl in fn.uses_of(1):
+        if bi not in reach or kind == 'drop':
+            continue
+        if kind == 'stmt' and mode == 'refmut':
+            tgt = fn.blocks[bi]['s'][idx][1]
+            if len(tgt) != 1:
+                return None
+            users = [u for u in fn.uses_of(tgt[0]) if u[1] != 'drop' and u[0] in reach]
+            if len(users) != 1 or users[0][1] != 'arg' or users[0][2] != 0:
+                return None
+            c = fn.call_at(users[0][0])
+            if c is None or c.indirect:
+                return None
+            muts.append((tuple(x for x in pl[1:] if x != '*'), 'call', c.bb, c))
+        elif kind == 'stmt':
+            continue       # reads / the final `move self`
+        else:
+            return None    # self handed to a call
+    return muts
+
+
+def sbom_name_table(sl, f):
+    """{format variant: file name with '{name}' for the base-name parameter} for the SBOM path constructor
+    `f(format, dir, name) = dir.join(<text built from name and a per-format literal>)`, or None when the result is not of
+    that form (the directory must be the given one, the name one path component)"""
+    v = strip(sl.inline_deep(sl.local(f, 0)))
+    if not (v[0] == 'call' and v[1] in ('std::path::Path::join', 'std::path::PathBuf::join') and len(v[2]) == 2) or f.argc != 3:
+        return None
+    d = strip(v[2][0])
+    if not (d[0] == 'param' and d[1] == f.path and d[2] == 1):
+        return None
+    name = strip(v[2][1])
+    if name[0] == 'phi' and len(v) == 4 and v[3] and v[3][0] == f.path:
+        # `match format { A => format!(..), B => format!(..) }`: one definition per arm, told apart by the decisions on
+        # the format parameter that dominate it
+        from .lib.tables import arm_defs, phi_local_of
+        jc = f.call_at(v[3][1])
+        loc = phi_local_of(f, jc.args[1], True) if jc is not None and len(jc.args) == 2 else None
+        if loc is None:
+            return None
+        arms = []
+        for bi, val, conds in arm_defs(f, loc, sl):
+            cs = [cd for cd in conds if cd.kind == 'variant' and cd.subject is not None and strip(cd.subject)[0] == 'param'
+                  and strip(cd.subject)[1] == f.path and strip(cd.subject)[2] == 0]
+            if len(cs) != 1:
+                return None
+            arms.append((tuple(sorted(cs[0].outcome)), val))
+            enum = cs[0].enum
+        name = ('select', ('param', f.path, 0, f.local_name(1)), enum, tuple(arms))
+    adt = None
+    for x in _walk(name):
+        if x[0] == 'select' and strip(x[1])[0] == 'param' and strip(x[1])[1] == f.path and strip(x[1])[2] == 0:
+            adt = sl.prog.adts.get(x[2])
+    if adt is None:
+        return None
+
+    def render(p, variant):
+        if isinstance(p, str):
+            return p
+        q = strip(p)
+        if q[0] == 'const':
+            return q[1] if isinstance(q[1], str) else None
+        if q[0] == 'param' and q[1] == f.path and q[2] == 2:
+            return '{name}'
+        if q[0] == 'fmt':
+            parts = [render(x, variant) for x in q[1]]
+        elif q[0] == 'concat':
+            parts = [render(q[1], variant)] + [render(x, variant) for x in q[2]]
+        elif q[0] == 'select' and strip(q[1])[0] == 'param' and strip(q[1])[1] == f.path and strip(q[1])[2] == 0:
+            arms = [val for names, val in q[3] if variant in names]
+            parts = [render(arms[0], variant)] if len(arms) == 1 else [None]
+        else:
+            return None
+        return None if any(x is None for x in parts) else ''.join(parts)
+    out = {}
+    for var in adt['variants']:
+        r = render(name, var['name'])
+        if r is None:
+            return None
+        out[var['name']] = r
+    return out
+
+
+def certain_for_every_element(E, fn, top, is_target):
+    """(ok, why): when fn succeeds, an effect satisfying `is_target` has happened for every element of the collection that
+    the statement `top` (a call of fn: inside a `for` loop, or an iterator consumer such as try_for_each) ranges over.
+      loop      runs_for_every_element(top) and the effect is certain within one execution of `top`
+      consumer  the library's MUST expansion of the consumer yields the effect FORALL elements (short-circuiting consumers
+                count only when their failure cannot end in success, stopped / filtered stages do not count), and the
+                consumer itself is only skipped for an empty collection"""
+    sl = E.slicer
+    tmp = []
+    E._expand_call(fn, top, None, 'must', {}, (), (fn.path,), tmp)
+    hits = [q for q in tmp if is_target(q)]
+    if any(top.bb in L.body and top.bb != L.header for L in E.loops(fn)):
+        ok, why = runs_for_every_element(E, fn, top)
+        if ok and not hits:
+            return False, 'the effect is conditional inside the loop body'
+        return ok, why
+    if not hits:
+        return False, 'the effect is not certain for the elements the statement ranges over'
+    fa = hits[0].forall
+    if fa is None:
+        return False, 'the statement does not range over a collection'
+    for cd in optional_conditions(E, fn, top.bb):
+        if cd.kind == 'bool' and cd.outcome is False and cd.value[0] == 'call' and cd.value[1].endswith('::is_empty') \
+                and len(cd.value[2]) == 1 and _same_collection(cd.value[2][0], fa):
+            continue
+        return False, 'the statement is skipped under %r' % (cd,)
+    return True, ''
